@@ -1,4 +1,4 @@
-import GeodeVerif.Lemmas.C18Sub
+import GeodeVerif.Lemmas.C18Zero
 /-!
 # C18 — editing a SINEX solution keeps exactly the remaining parameters and covariance
 
@@ -191,5 +191,182 @@ theorem refinement_remove_stns {s : Sol} (hwf : s.wf = true) {c : Clock} (hc : c
     epochFilter_render h sites c, estOut_render h sites c]
   simp [render, renderWith, unlines, unlines_append, wl, touch, Spec.removeStns, commentBlock,
     List.append_assoc]
+
+/-! ## 1. estimates kept and renumbered -/
+
+/-- **estimates_kept_renumbered** (every list of lines, every removal list): the SOLUTION/ESTIMATE
+lines written are exactly the input lines that are markers or whose station (columns 14–17) is
+not removed, in order, with only columns 0–5 of the data lines rewritten to `1, 2, …`. -/
+theorem estimates_kept_renumbered (sites : List Str) (ls : List Str) :
+    estOut sites ls 0 = renumber 0 (ls.filter (estKeep sites)) :=
+  estOut_eq_renumber_filter sites ls 0
+
+/-- … and on a rendered solution these are the estimate lines of the remaining stations'
+parameters, numbered consecutively. -/
+theorem estimates_kept_renumbered_render {s : Sol} (hwf : s.wf = true) (sites : List Str) (c : Clock) :
+    estOut sites (readBlock "SOLUTION/ESTIMATE" (render s)) 0
+        = "+SOLUTION/ESTIMATE".toList :: estTitle ::
+            estLinesFrom 0 (s.params.filter (fun cp => !sites.contains cp.1)) ++ ["-SOLUTION/ESTIMATE".toList] := by
+  have h := wf_spec hwf
+  rw [readBlock_est h, estOut_render h sites c, estBlock, params_removeStns]
+
+/-! ## 2. the covariance written is the sub-matrix -/
+
+/-- **submatrix_exact.**  With `keep` the increasing list of the remaining parameter indices, the
+matrix block written is the rendering (same triangle, lines of at most three values, `PARA2`
+advancing by three from the first stored column) of the matrix `(a, b) ↦ M (keep a) (keep b)`. -/
+theorem submatrix_exact {s : Sol} (hwf : s.wf = true) (sites : List Str) (c : Clock) :
+    stnsMatrix (readBlock "SOLUTION/MATRIX_ESTIMATE" (render s)) (skipFrom sites 0 s.params)
+        = .ok (unlines (matBlock (Spec.removeStns s sites c)))
+      ∧ (Spec.removeStns s sites c).tri = s.tri
+      ∧ (Spec.removeStns s sites c).n = (keepIdx s sites).length
+      ∧ ∀ a b, (Spec.removeStns s sites c).mat a b
+          = s.mat ((keepIdx s sites).getD a 0) ((keepIdx s sites).getD b 0) := by
+  have h := wf_spec hwf
+  refine ⟨?_, rfl, (length_keepIdx s sites c).symm, fun _ _ => rfl⟩
+  rw [readBlock_mat h]
+  exact stnsMatrix_render h sites c
+
+/-- the values of the lines of a row, read back in order, are the row: `flatten (chunk3 r) = r` -/
+theorem chunk3_flatten (vals : List Str) :
+    ((List.range ((vals.length + 2) / 3)).map (fun c => (vals.drop (3 * c)).take 3)).flatten = vals :=
+  rowLines_values vals
+
+/-- the `while` loop of the code writes exactly those lines (each with `PARA2 = start + 3c`) -/
+theorem emitRow_lines (p1 : Str) (start : Nat) (vals : List Str) :
+    emitRow p1 ((start : Int) - 3) vals
+      = (List.range ((vals.length + 2) / 3)).map (fun c =>
+          matLine p1 ((start + 3 * c : Nat) : Int) ((vals.drop (3 * c)).take 3)) :=
+  emitRow_eq_rowLines p1 start vals
+
+/-! ## 3. header count, 4. creation time -/
+
+/-- **header_count.**  The header written differs from the input header only in the creation
+stamp (columns 15–26) and the parameter count (columns 60–64), which becomes
+`old − k · removed` (`k` = 6 with the velocity flag, else 3), zero-padded to five digits. -/
+theorem header_count {s : Sol} (hwf : s.wf = true) {c : Clock} (hc : c.Valid) {sites : List Str}
+    (hS : "SOLU".toList ∉ sites) (hC : "CODE".toList ∉ sites) :
+    ∃ h' : Str, stnsHeader (render s) sites c = .ok (wl h') ∧
+      h'.take 15 = (headerLine s).take 15 ∧ slice 15 27 h' = stamp c ∧
+      slice 27 60 h' = slice 27 60 (headerLine s) ∧ h'.drop 65 = (headerLine s).drop 65 ∧
+      slice 60 65 h' = fmt0d 5 (((s.n - s.k * (s.solns.filter (fun x => sites.contains x.code)).length : Nat)) : Int) ∧
+      s.k * (s.solns.filter (fun x => sites.contains x.code)).length ≤ s.n := by
+  have h := wf_spec hwf
+  have hst := stamp_length hc
+  have hn' : (Spec.removeStns s sites c).n < 100000 := (shape_removeStns h hc sites).n_lt
+  have hlen := length_filter_add s.solns (fun x => sites.contains x.code)
+  have hnum : (Spec.removeStns s sites c).n
+      = s.n - s.k * (s.solns.filter (fun x => sites.contains x.code)).length := by
+    rw [n_removeStns h, n_eq h, hlen, Nat.mul_add, Nat.add_sub_cancel_left]
+  have hle : s.k * (s.solns.filter (fun x => sites.contains x.code)).length ≤ s.n := by
+    rw [n_eq h]; exact Nat.mul_le_mul_left _ (List.length_filter_le _ _)
+  refine ⟨headerLine (Spec.removeStns s sites c), stnsHeader_render h hc hS hC, ?_, ?_, ?_, ?_, ?_, hle⟩
+  · simp only [headerLine, Spec.removeStns, touch, List.append_assoc]
+    rw [List.take_left' h.hdrA_len, List.take_left' h.hdrA_len]
+  · have : headerLine (Spec.removeStns s sites c) = s.hdrA ++ (stamp c ++ (s.hdrB ++
+        fmt0d 5 ((Spec.removeStns s sites c).n : Int) ++ s.hdrC ++ (if s.vel then " V".toList else []))) := by
+      simp [headerLine, Spec.removeStns, touch, List.append_assoc]
+    rw [this, slice, List.drop_left' h.hdrA_len]; exact List.take_left' hst
+  · have e1 : headerLine (Spec.removeStns s sites c) = (s.hdrA ++ stamp c) ++ (s.hdrB ++
+        (fmt0d 5 ((Spec.removeStns s sites c).n : Int) ++ s.hdrC ++ (if s.vel then " V".toList else []))) := by
+      simp [headerLine, Spec.removeStns, touch, List.append_assoc]
+    have e2 : headerLine s = (s.hdrA ++ s.stamp) ++ (s.hdrB ++
+        (fmt0d 5 (s.n : Int) ++ s.hdrC ++ (if s.vel then " V".toList else []))) := by
+      simp [headerLine, List.append_assoc]
+    rw [e1, e2, slice, slice, List.drop_left' (by simp [h.hdrA_len, hst]),
+      List.drop_left' (by simp [h.hdrA_len, h.stamp_len]), List.take_left' h.hdrB_len, List.take_left' h.hdrB_len]
+  · have e1 : headerLine (Spec.removeStns s sites c) = (s.hdrA ++ stamp c ++ s.hdrB ++
+        fmt0d 5 ((Spec.removeStns s sites c).n : Int)) ++ (s.hdrC ++ (if s.vel then " V".toList else [])) := by
+      simp [headerLine, Spec.removeStns, touch, List.append_assoc]
+    have e2 : headerLine s = (s.hdrA ++ s.stamp ++ s.hdrB ++ fmt0d 5 (s.n : Int)) ++
+        (s.hdrC ++ (if s.vel then " V".toList else [])) := by
+      simp [headerLine, List.append_assoc]
+    rw [e1, e2, List.drop_left' (by simp [h.hdrA_len, hst, h.hdrB_len, fmt0d5_length hn']),
+      List.drop_left' (by simp [h.hdrA_len, h.stamp_len, h.hdrB_len, fmt0d5_length h.n_lt])]
+  · have e1 : headerLine (Spec.removeStns s sites c) = (s.hdrA ++ stamp c ++ s.hdrB) ++
+        (fmt0d 5 ((Spec.removeStns s sites c).n : Int) ++ (s.hdrC ++ (if s.vel then " V".toList else []))) := by
+      simp [headerLine, Spec.removeStns, touch, List.append_assoc]
+    rw [e1, slice, List.drop_left' (by simp [h.hdrA_len, hst, h.hdrB_len]),
+      List.take_left' (fmt0d5_length hn'), hnum]
+
+/-- **creation_time_format.**  For every clock value the stamp written is `YY:DDD:SSSSS` — twelve
+characters, decimal digits, day of year and whole seconds since midnight zero-padded, seconds in
+`00000 … 86399` (23:59:59.6 gives `86399`, never `86400`). -/
+theorem creation_time_format {c : Clock} (hc : c.Valid) :
+    (stamp c).length = 12 ∧ isStampText (stamp c) = true ∧
+    ∃ yy ddd sssss : Str, stamp c = yy ++ ':' :: ddd ++ ':' :: sssss ∧
+      yy.length = 2 ∧ ddd.length = 3 ∧ sssss.length = 5 ∧
+      digitsVal ddd = c.yday ∧ digitsVal sssss = c.hour * 3600 + c.minute * 60 + c.second ∧
+      digitsVal sssss ≤ 86399 := by
+  refine ⟨stamp_length hc, isStampText_stamp hc, ?_⟩
+  obtain ⟨yy, ddd, sss, he, h1, h2, h3, _, _, _, h7, h8, h9⟩ := stamp_format hc
+  exact ⟨yy, ddd, sss, he, h1, h2, h3, h7, h8, by rw [h8]; exact h9⟩
+
+example : (⟨2021, 3, 4, 63, 0, 16, 39, 0⟩ : Clock).Valid := by constructor <;> decide
+/-- the witness of the defect in the unpatched tree, now formatted correctly -/
+example : stamp ⟨2021, 3, 4, 63, 0, 16, 39, 0⟩ = "21:063:00999".toList := by decide
+example : stamp ⟨2021, 3, 4, 63, 23, 59, 59, 600000⟩ = "21:063:86399".toList := by decide
+
+/-! ## 5. blocks closed, 9. refinement: all three claims for `remove_stns_sinex` -/
+
+/-- **blocks_closed** (`remove_stns_sinex`).  The text written is a list of lines each followed
+by its newline; the header has the fixed width with a proper stamp and a five-digit count,
+every `+BLOCK` is closed by `-BLOCK` on a line of its own and `%ENDSNX` is the last line. -/
+theorem blocks_closed_remove_stns {s : Sol} (hwf : s.wf = true) {c : Clock} (hc : c.Valid)
+    {sites : List Str} (hS : "SOLU".toList ∉ sites) (hC : "CODE".toList ∉ sites) :
+    ∃ out : List Str, Sinex.removeStns (render s) sites c = .ok (unlines out) ∧
+      wellFormedText out = true :=
+  ⟨_, refinement_remove_stns hwf hc hS hC,
+    wellFormedText_render (shape_removeStns (wf_spec hwf) hc sites)⟩
+
+/-- the hypothesis on the removal list cannot be dropped: a removal list containing the
+pseudo-code `SOLU` (read off the `+SOLUTION/EPOCHS` / `-SOLUTION/EPOCHS` lines by the counting
+loop) changes the count although no station is removed -/
+theorem header_count_fails :
+    ¬ ∀ (s : Sol) (c : Clock) (sites : List Str), s.wf = true → c.Valid →
+        Sinex.removeStns (render s) sites c = .ok (unlines (render (Spec.removeStns s sites c))) := by
+  intro H
+  have := H
+    { hdrA := "%=SNX 2.02 AUS ".toList, stamp := "20:010:43200".toList,
+      hdrB := " AUS 19:001:00000 19:365:86370 P ".toList, hdrC := " 2 X".toList, vel := false, tri := .L,
+      comments := [], sites := [], solns := [], mat := fun _ _ => [] }
+    ⟨2021, 3, 4, 63, 12, 0, 0, 0⟩ ["SOLU".toList] (by decide) (by constructor <;> decide)
+  have := congrArg (fun r : Except Err Str => match r with
+    | .ok t => t
+    | .error _ => []) this
+  revert this
+  decide
+
+/-! ## 7. zero lines -/
+
+/-- **drop_zero_lines_exact / refinement (`remove_matrixzeros_sinex`).**  The text written is the
+rendering of the same solution (new stamp, one more comment line) without the matrix lines whose
+values are all `0.00000000000000e+00`; every other line is unchanged and on its own line. -/
+theorem refinement_remove_matrixzeros {s : Sol} (hwf : s.wf = true) (c : Clock) :
+    removeMatrixZeros (render s) c = .ok (unlines (renderDropZero (touch s c))) := by
+  have h := wf_spec hwf
+  unfold removeMatrixZeros
+  simp only [header_touch h c, readComments_render h, readBlock_site h, readBlock_epochs h, readBlock_est h,
+    readBlock_mat h, matBlock_filter_zero h]
+  have e1 : siteBlock (touch s c) = siteBlock s := rfl
+  have e2 : epochBlock (touch s c) = epochBlock s := rfl
+  have e3 : estBlock (touch s c) = estBlock s := rfl
+  have e4 : matBlockOf (touch s c) (matLinesNZ (touch s c)) = matBlockOf s (matLinesNZ s) := rfl
+  simp only [renderDropZero, renderWith, e1, e2, e3, e4, unlines, unlines_append, List.append_assoc,
+    List.cons_append, List.nil_append, List.append_nil]
+
+/-- the lines dropped are exactly the all-zero ones: per row, the chunk `c` is written iff not all of
+its (at most three) values are the zero token -/
+theorem drop_zero_lines_exact (i start : Nat) (toks : List Str) (hw : ∀ t ∈ toks, Word t) :
+    (rowLines (fmt5d (i : Int)) start (toks.map padTok)).filter (fun l => !isZeroLine l)
+      = ((List.range ((toks.length + 2) / 3)).filter
+            (fun c => !zeroChunk ((toks.drop (3 * c)).take 3))).map
+          (fun c => matLine (fmt5d (i : Int)) ((start + 3 * c : Nat) : Int)
+            (((toks.drop (3 * c)).take 3).map padTok)) :=
+  rowLines_filter_zero i start toks hw
+
+theorem blocks_closed_remove_matrixzeros {s : Sol} (hwf : s.wf = true) {c : Clock} (hc : c.Valid) :
+    ∃ out : List Str, removeMatrixZeros (render s) c = .ok (unlines out) ∧ wellFormedText out = true :=
+  ⟨_, refinement_remove_matrixzeros hwf c, wellFormedText_renderDropZero (shape_of_wf_touch (wf_spec hwf) hc)⟩
 
 end GeodeVerif.C18
